@@ -157,8 +157,7 @@ def norm(v):
 def _leaf_strict_eq(a, b):
     if type(a) is not type(b):
         return False
-    if isinstance(a, float):
-        return repr(a) == repr(b)
+    # same JSON type and equal: the sign of a float zero is not a type (0.0 == -0.0, both floats)
     return a == b
 
 
